@@ -16,9 +16,23 @@ def sched_of(events):
     return [(e[1], e[2]) for e in events if e[0] == 'sched']
 
 
-def classify(progs, sched):
-    """role-based regions over the schedule (which window of which command another client's mutation fell into)"""
-    regs = set()
+def classify(progs, sched, st=None, obs=None):
+    """role-based regions over the schedule (which window of which command another client's mutation fell into)
+    -> {region: z3 predicate over the request fields}.  The lookup-then-store window is a known defect only for commands that
+    carry no CAS, or a CAS that was not the item's CAS when the episode started (a guessed future token can make the conditional
+    store succeed on a stale read): with the item's current CAS the store is conditional and must stay safe."""
+    regs = {}
+
+    def rejected(t, cmd):
+        # a command that was refused changed nothing: under a race its error code may be the one of the state it looked up
+        # (e.g. 'key exists' from the conditional store where a sequential run would say 'non-numeric'); same known window
+        if obs is None:
+            return z3.BoolVal(False)
+        return z3.BoolVal(any(o.cmd == cmd and o.kind != 0 for o in obs[t]))
+
+    def add(name, pred=None):
+        pred = z3.BoolVal(True) if pred is None else pred
+        regs[name] = z3.Or(regs[name], pred) if name in regs else pred
     n = len(sched)
     for t, prog in enumerate(progs):
         mine = [i for i, (tid, op) in enumerate(sched) if tid == t]
@@ -30,16 +44,16 @@ def classify(progs, sched):
                 if b <= a or sched[b][1] not in ('atomic.fetch_add', 'map.get_mut', 'map.insert'):
                     continue
                 if any(sched[k][0] != t and sched[k][1] in MUT_STEPS + ('atomic.fetch_add',) for k in range(a + 1, b)):
-                    for cmd, _ in prog:
+                    for cmd, inp in prog:
                         if cmd in ('add', 'replace', 'append', 'prepend', 'increment', 'decrement'):
-                            regs.add('rmw-window:' + cmd)
+                            add('rmw-window:' + cmd, z3.Or(inp.cas == 0, inp.cas != st.cas[0], z3.Not(st.live(0)), rejected(t, cmd)) if st is not None else inp.cas == 0)
                 # a foreign mutation after this client's store decision but before its insert also breaks the read-modify-write
             # lookup ... foreign mutation ... (no own store: the command failed on stale information)
             later_foreign = any(sched[k][0] != t and sched[k][1] in MUT_STEPS for k in range(a + 1, n))
             if later_foreign:
-                for cmd, _ in prog:
+                for cmd, inp in prog:
                     if cmd in ('add', 'replace', 'append', 'prepend', 'increment', 'decrement'):
-                        regs.add('rmw-window:' + cmd)
+                        add('rmw-window:' + cmd, z3.Or(inp.cas == 0, inp.cas != st.cas[0], z3.Not(st.live(0)), rejected(t, cmd)) if st is not None else inp.cas == 0)
         # conditional store on an absent key: get_mut (nothing there) ... foreign step ... insert
         for a in mine:
             if sched[a][1] != 'map.get_mut':
@@ -48,7 +62,7 @@ def classify(progs, sched):
             if nxt and sched[nxt[0]][1] in ('map.insert', 'atomic.fetch_max', 'atomic.fetch_add'):
                 ins = [b for b in nxt if sched[b][1] == 'map.insert']
                 if ins and any(sched[k][0] != t for k in range(a + 1, ins[0])):
-                    regs.add('cas-store-absent-window')
+                    add('cas-store-absent-window')
         # unconditional store: token drawn (fetch_add) ... foreign store ... insert  (benign with relational tokens, listed for completeness)
     return regs
 
@@ -192,6 +206,9 @@ def explore_program(ck, names, constraints=None, allow_stale=False, policy=None,
         if policy:
             final = final + (w.usage(),)
         return obs, final, sched_of(E.events), [e for e in E.events if e[0] in ('deadlock', 'self-deadlock')]
+    label = ' || '.join('[' + ','.join(p) + ']' for p in names)
+    small = [z3.ULE(st.cas_id, 100), z3.ULE(st.now, 100000), z3.ULE(vlen(st.val[0]), 8)] + \
+            [z3.ULE(vlen(inp.val), 8) for p in progs for _, inp in p]
     if frontier_depth is not None:
         return ck.E.frontier(h, frontier_depth)
     kw = {}
@@ -200,19 +217,33 @@ def explore_program(ck, names, constraints=None, allow_stale=False, policy=None,
     if prefixes is not None:
         kw['prefixes'] = prefixes
     res = ck.explore(h, **kw)
-    label = ' || '.join('[' + ','.join(p) + ']' for p in names)
-    small = [z3.ULE(st.cas_id, 100), z3.ULE(st.now, 100000), z3.ULE(vlen(st.val[0]), 8)] + \
-            [z3.ULE(vlen(inp.val), 8) for p in progs for _, inp in p]
     nval = 0
     for p in res:
+        if p.status == 'inconclusive' and 'unwinding bound' in str(p.info):
+            # a loop that does not end within its bound while the other clients have finished or are parked: livelock candidate
+            if p.info in ck.inconclusive:
+                ck.inconclusive.remove(p.info)
+            sched = sched_of(p.events)
+
+            def on_live(m, where, sched=sched):
+                try:
+                    sc, C = scenario(m, st, progs, sched, policy, mval(m, memory_limit) if memory_limit is not None else None)
+                except ValueError as ex:
+                    return None, f'cannot concretise: {ex}', None
+                sc['watchdog_ms'] = 3000
+                out = ck.replay([sc])[0]
+                desc = f"{label} with steps {' '.join(f'{t}:{op}' for t, op in sched)} (then free running), limit {mval(m, memory_limit) if memory_limit is not None else '-'}: " \
+                       f"engine: {p.info}; native: " + (f"client(s) {out['hung']} never return (3 s watchdog)" if out.get('hung') else 'all commands returned')
+                return (True if out.get('hung') else None), desc, sc
+            ck.obligation(f'{label}: every command returns (no loop spins for ever)', p.pc, z3.BoolVal(False), {}, on_live, small)
+            continue
         if p.status == 'deadlock':
             ck.obligation(f'{label}: no command blocks on its own guard', p.pc, z3.BoolVal(False), {}, None, [])
             continue
         if p.status != 'ok':
             continue
         obs, final, sched, dl = p.out
-        regs = classify(progs, sched) if known_regions else set()
-        R = {r: z3.BoolVal(True) for r in regs}
+        R = classify(progs, sched, st, obs) if known_regions else {}
 
         def on_w(m, where, obs=obs, final=final, sched=sched):
             try:
@@ -222,8 +253,14 @@ def explore_program(ck, names, constraints=None, allow_stale=False, policy=None,
                 return None, f'cannot concretise: {ex}', None
             out = ck.replay([sc])[0]
             nat, nfin = native_obs(out)
+            if out.get('hung'):
+                return None, f"native: client(s) {out['hung']} never returned on schedule {sched}", sc
             desc = describe(m, st, progs, sched, nat, nfin, C)
-            if out['schedule_mismatch'] or out['stuck'] or out['steps_done'] != out['steps_planned']:
+            if out['schedule_mismatch']:
+                desc += f" (step labels differ natively: {out['schedule_mismatch'][:1]})"
+            if out.get('hung'):
+                return None, desc + f" | native: client(s) {out['hung']} never returned", sc
+            if out['stuck'] or out['steps_done'] != out['steps_planned']:
                 return None, desc + f" | native threads did not follow the schedule: {out['schedule_mismatch'][:2]} stuck={out['stuck']} steps {out['steps_done']}/{out['steps_planned']}", sc
             diffs = compare(pred, pfin, nat, nfin, progs)
             if diffs:
